@@ -68,6 +68,7 @@ func c03Inits() []c03Init {
 	}
 	out = append(out, c03Init{"110KB-image", pegen.Build(peBigLayout())})
 	out = append(out, c03Init{"chunk-boundary-image", pegen.Build(peChunkBoundaryLayout())})
+	out = append(out, c03Init{"image-with-64KiB-DOS-stub", pegen.Build(peLongStubLayout())})
 	// layouts carrying a third-party certificate table (a real sbsign signature blob as payload)
 	if blob, err := os.ReadFile("/repo/authenticode/testdata/test.pecoff.pk7"); err == nil {
 		for _, i := range []int{0, 1, 4} {
